@@ -332,4 +332,5 @@ def run(ctx):
   # ';' time codes advance by SMPTE drop-frame labels: the frame arithmetic behind add_frames agrees with SMPTE ST 12-1 at the minute boundaries
   from . import c12 as _c12
   _c12.check_drop_frame_labels(ctx)
+  common.check_item_handlers(ctx, ["ttconv.scc.reader", "ttconv.scc.line", "ttconv.scc.context", "ttconv.scc.word"])
   common.check_history_independence(ctx, [n for n in ctx.ix.modules if n.startswith("ttconv.scc")] + ["ttconv.time_code"])
